@@ -182,7 +182,7 @@ func genWrapStart(r *rand.Rand, idx uint64, thorough bool) params {
 func genEarly(r *rand.Rand, idx uint64, thorough bool) params {
 	k := idx - earlyBase
 	set := []string{"h264+a", "vp9+a", "h264", "h264+a", "vp9", "h264+a"}[k%6]
-	class := []string{"inorder", "reorder", "gap-cache", "inorder", "dup", "gap-mixed"}[k%6]
+	class := []string{"inorder", "inorder", "gap-cache", "inorder", "gap-cache", "reorder-dup"}[k%6]
 	p := genRegular(r, idx, false, class, set)
 	p.Thorough = thorough
 	p.Early = true
@@ -1124,6 +1124,9 @@ type session struct {
 	evno   int64 // number of the event being delivered
 	noSR   bool  // replay without sender reports
 	wallMs float64
+	// index of the first session of this process that left a Matroska (.mkv)
+	// recording behind, as known when this session began (-1: none yet)
+	afterMkv int64
 
 	files   []string
 	endErr  error
@@ -1220,6 +1223,7 @@ func (s *session) trackById(id int) *track {
 
 // drive plays the session against the real recorder.
 func (s *session) drive() error {
+	s.afterMkv = firstMkv.Load()
 	s.group = fmt.Sprintf("s%06d", s.p.Session)
 	if s.noSR {
 		s.group += "n"
@@ -1658,8 +1662,20 @@ func (t *track) complete(f *frame) bool {
 }
 
 func (s *session) replay() map[string]any {
-	return map[string]any{"session": s.p.Session, "thorough": s.p.Thorough, "params": s.p, "delivery": s.summary}
+	m := map[string]any{"session": s.p.Session, "thorough": s.p.Thorough, "params": s.p, "delivery": s.summary}
+	if s.afterMkv >= 0 && uint64(s.afterMkv) != s.p.Session {
+		// what an earlier recording left behind in the process may matter: a
+		// replay runs that session first
+		m["after_h264_session"] = s.afterMkv
+	}
+	return m
 }
+
+// firstMkv: the first session of this process whose recording came out as a
+// well-formed Matroska (.mkv) file with at least one block (-1: none so far).
+var firstMkv atomic.Int64
+
+func init() { firstMkv.Store(-1) }
 
 // Violations are collected and reported after all sessions ran, simplest
 // delivery history first, so that the witness printed (and the replay file
@@ -1858,7 +1874,17 @@ func (s *session) judge(primary bool) *verdict {
 		if perr == nil || f.DocType != "" {
 			if f.DocType != wantDoc {
 				containerOK = false
-				v.add("malformed-container", -1, -1, fmt.Sprintf("%s has DocType %q, want %q", base, f.DocType, wantDoc), "")
+				how := ""
+				if s.afterMkv >= 0 {
+					how = fmt.Sprintf(" (session %d of this process had recorded H264 into a .mkv file before this session began)", s.afterMkv)
+				}
+				var codecs []string
+				for _, t := range s.tracks {
+					codecs = append(codecs, t.codec)
+				}
+				v.add("wrong-doctype", -1, -1, fmt.Sprintf("%s, the recording of a connection with %s, is a document of type %q, want %q%s", base, strings.Join(codecs, " + "), f.DocType, wantDoc, how), "")
+			} else if wantDoc == "webm" && s.afterMkv >= 0 && perr == nil {
+				count("webm_files_checked_after_an_mkv_recording", 1)
 			}
 		}
 		if filepath.Ext(path) != wantExt {
@@ -1920,6 +1946,9 @@ func (s *session) judge(primary bool) *verdict {
 		}
 	}
 	count("files_parsed", int64(len(s.files)))
+	if primary && p.Video == "h264" && containerOK && nblocks > 0 && len(s.files) > 0 && filepath.Ext(s.files[0]) == ".mkv" {
+		firstMkv.CompareAndSwap(-1, int64(p.Session))
+	}
 	if len(s.files) > 1 {
 		count("sessions_with_several_files", 1)
 	}
@@ -1992,6 +2021,7 @@ func (s *session) judge(primary bool) *verdict {
 	}
 
 	// ---- audio and video share one time origin
+	comparedAfterSR := 0
 	if s.audio != nil && s.video != nil {
 		interval := 1000.0 / float64(p.Fps)
 		base := math.Max(interval, 40)
@@ -2045,6 +2075,7 @@ func (s *session) judge(primary bool) *verdict {
 			}
 			if nS[0] > 0 && nS[1] > 0 {
 				count("av_origin_files_compared_after_sender_reports", 1)
+				comparedAfterSR++
 				d := math.Max(hiS[0]-loS[1], hiS[1]-loS[0])
 				if d >= base {
 					v.add("av-origin-after-sender-reports", -1, -1, fmt.Sprintf("file %d: after both tracks got a sender report, frames captured at the same instant get timecodes %.1f ms apart (allowed %.1f ms); audio offsets %.1f..%.1f ms, video offsets %.1f..%.1f ms", fi, d, base, loS[0], hiS[0], loS[1], hiS[1]), "")
@@ -2059,6 +2090,17 @@ func (s *session) judge(primary bool) *verdict {
 	}
 	if p.Class == "long-hold" {
 		s.longHoldCoverage(v)
+	}
+	if p.WrapAtStart != "" {
+		s.wrapStartCoverage(v, comparedAfterSR)
+	}
+	if p.Early {
+		count("early_sessions", 1)
+		if nblocks > 0 && containerOK && len(s.files) == 1 {
+			// (containerOK: parsed, the DocType and the extension of the codec,
+			// the declared tracks)
+			count("early_"+p.Video+"_sessions_with_wellformed_"+map[bool]string{true: "mkv", false: "webm"}[p.Video == "h264"], 1)
+		}
 	}
 
 	// ---- accounting
@@ -2213,6 +2255,54 @@ func (s *session) longHoldCoverage(v *verdict) {
 	}
 }
 
+// wrapStartCoverage counts what a wrap-at-start session exercised, from the
+// delivery history and the verdict only: on which tracks the 32-bit timestamp
+// wrapped between the instant the track's sender report describes and the
+// packet that places the track in the file (video: the first packet of a
+// keyframe to reach the recorder; audio: the first audio packet to reach it
+// after that one), and whether the recording then was one file, complete (no
+// symptom of any kind) and aligned (audio and video compared under the tight
+// bound that applies once both tracks have had a sender report).
+func (s *session) wrapStartCoverage(v *verdict, comparedAfterSR int) {
+	run := s.run
+	between := func(sr, ts uint32) bool { return int32(ts-sr) > 0 && ts < sr }
+	kfEv, kfTs := int64(-1), uint32(0)
+	for _, pi := range s.video.feed {
+		if f := &s.video.frames[s.video.pkts[pi].frame]; f.key && pi == f.p0 {
+			kfEv, kfTs = s.video.firstPush[pi], f.ts
+			break
+		}
+	}
+	n := 0
+	run.Count("wrap_at_start_sessions", 1)
+	if kfEv >= 0 && len(s.video.srRTP) > 0 && between(s.video.srRTP[0], kfTs) {
+		run.Count("wrap_at_start_video_wraps_between_sender_report_and_first_keyframe", 1)
+		n++
+	}
+	if kfEv >= 0 && len(s.audio.srRTP) > 0 {
+		first := -1
+		for pi := range s.audio.pkts {
+			if fp := s.audio.firstPush[pi]; fp > kfEv && (first < 0 || fp < s.audio.firstPush[first]) {
+				first = pi
+			}
+		}
+		if first >= 0 && between(s.audio.srRTP[0], s.audio.frames[first].ts) {
+			run.Count("wrap_at_start_audio_wraps_between_sender_report_and_origin_packet", 1)
+			n++
+		}
+	}
+	if debug {
+		fmt.Printf("wrap-at-start: %d tracks wrapped between sender report and origin packet; video sr %v kf ts %d; audio sr %v\n", n, s.video.srRTP, kfTs, s.audio.srRTP)
+	}
+	if n == 0 {
+		return
+	}
+	run.Count("wrap_at_start_sessions_wrap_in_between", 1)
+	if len(v.findings) == 0 && len(s.files) == 1 && comparedAfterSR == 1 && v.firstWritten[0] >= 0 && v.firstWritten[1] >= 0 {
+		run.Count("wrap_at_start_sessions_wrap_in_between_complete_and_aligned", 1)
+	}
+}
+
 var debug = os.Getenv("C20_DEBUG") != ""
 
 // dump prints the session for debugging (C20_DEBUG=<session index>).
@@ -2329,7 +2419,7 @@ func main() {
 	os.MkdirAll(group.Directory, 0o755)
 	run.MaxReplays = 40
 
-	rule := "sessions generated from (seed, index): codec set x delivery class (in order / reordered <= 10 packets / duplicated / withheld-but-cached / withheld-and-lost / mixed / late start; plus a fixed list of long-hold sessions: Opus next to video of 3-6 frames/s and 1-2 packets per frame, 60-120 frames, in order and complete except one or two mid-stream video packets that arrive 30-200 video packets - 6.5 s or more of media - late, in the thorough tier also four sessions with a packet more than a minute late) x sender-report timing per track (before, midstream and repeated, never) x seqno and timestamp wrap x packets-per-frame class x end (departure, Close); each session drives the real diskwriter through conn.Up/UpTrack/DownTrack and its file is read back with an independent EBML reader; distinct_nontrivial = distinct (codecs, delivery class, SR timing, wrap flags, packets-per-frame class) among sessions whose recording holds at least one block. An end-to-end tier (e2e.go) then has the real server record id-tagged multi-packet VP8 (+ Opus) streams published over SRTP (record/unrecord over the websocket, pion publisher, packet cache and writer pool in front of the diskwriter, seqno and timestamp wraps, four ways of ending) and judges every block of the WebM files it leaves behind against the frames sent (counters e2e_*)"
+	rule := "sessions generated from (seed, index): codec set x delivery class (in order / reordered <= 10 packets / duplicated / withheld-but-cached / withheld-and-lost / mixed / late start; plus a fixed list of long-hold sessions: Opus next to video of 3-6 frames/s and 1-2 packets per frame, 60-120 frames, in order and complete except one or two mid-stream video packets that arrive 30-200 video packets - 6.5 s or more of media - late, in the thorough tier also four sessions with a packet more than a minute late; a fixed list of wrap-at-start sessions: audio + video, one sender report per track received before the first packet, the timestamps of the video track, the audio track or both start just below 2^32 so that the wrap falls after the sender report and before or at the first keyframe / the first audio packet recorded, every other one delivered in order and the others through all delivery classes; and six H264 / VP9 sessions that every tier runs one after the other before any other session, so that every WebM recording is made in a process that has written a Matroska file) x sender-report timing per track (before, midstream and repeated, never) x seqno and timestamp wrap x packets-per-frame class x end (departure, Close); each session drives the real diskwriter through conn.Up/UpTrack/DownTrack and its file is read back with an independent EBML reader; distinct_nontrivial = distinct (codecs, delivery class, SR timing, wrap flags, packets-per-frame class) among sessions whose recording holds at least one block. An end-to-end tier (e2e.go) then has the real server record id-tagged multi-packet VP8 (+ Opus) streams published over SRTP (record/unrecord over the websocket, pion publisher, packet cache and writer pool in front of the diskwriter, seqno and timestamp wraps, four ways of ending) and judges every block of the WebM files it leaves behind against the frames sent (counters e2e_*)"
 
 	if rep, ok := vk.ReplayInput(); ok {
 		if sd, ok := rep["seed"].(float64); ok {
@@ -2338,6 +2428,10 @@ func main() {
 		if m, ok := rep["replay"].(map[string]any); ok {
 			if si, ok := m["session"].(float64); ok {
 				th, _ := m["thorough"].(bool)
+				if before, ok := m["after_h264_session"].(float64); ok {
+					// the session ran in a process that had recorded H264 before
+					runSession(run, uint64(before), th)
+				}
 				runSession(run, uint64(si), th)
 			} else {
 				e2eReplay(run, m)
@@ -2348,8 +2442,10 @@ func main() {
 	}
 
 	n := run.Pick(306, 5004)
-	nLong := run.Pick(8, 168) // long-hold sessions (index space longHoldBase + k), run first: they are the longest
-	nVery := run.Pick(0, 4)   // of which, holds of more than a minute (k >= veryLongOff)
+	nLong := run.Pick(8, 168)  // long-hold sessions (index space longHoldBase + k), run first: they are the longest
+	nVery := run.Pick(0, 4)    // of which, holds of more than a minute (k >= veryLongOff)
+	nWrap := run.Pick(24, 240) // wrap-at-start sessions (index space wrapStartBase + k)
+	nEarly := 6                // H264 and VP9 sessions (index space earlyBase + k), one after the other before anything else
 	thorough := !run.Quick()
 	if d := os.Getenv("C20_DEBUG"); d != "" {
 		var i uint64
@@ -2357,6 +2453,25 @@ func main() {
 		runSession(run, i, thorough)
 		reportViolations(run)
 		run.Finish("exploration", "debug run of one session")
+	}
+	// The quick tier's regular sessions are VP8 only.  A few H264 (.mkv) and VP9
+	// sessions run first, alone: whatever a Matroska recording leaves behind in
+	// the process is there for every session that follows.
+	for k := 0; k < nEarly; k++ {
+		runSession(run, earlyBase+uint64(k), thorough)
+	}
+	var list []uint64
+	for k := 0; k < nVery; k++ {
+		list = append(list, longHoldBase+veryLongOff+uint64(k))
+	}
+	for k := 0; k < nLong; k++ {
+		list = append(list, longHoldBase+uint64(k))
+	}
+	for k := 0; k < nWrap; k++ {
+		list = append(list, wrapStartBase+uint64(k))
+	}
+	for i := 0; i < n; i++ {
+		list = append(list, uint64(i))
 	}
 	workers := runtime.GOMAXPROCS(0)
 	if workers > 16 {
@@ -2370,16 +2485,10 @@ func main() {
 			defer wg.Done()
 			for {
 				i := next.Add(1) - 1
-				switch {
-				case i >= uint64(n+nLong+nVery):
+				if i >= uint64(len(list)) {
 					return
-				case i < uint64(nVery):
-					runSession(run, longHoldBase+veryLongOff+i, thorough)
-				case i < uint64(nVery+nLong):
-					runSession(run, longHoldBase+i-uint64(nVery), thorough)
-				default:
-					runSession(run, i-uint64(nVery+nLong), thorough)
 				}
+				runSession(run, list[i], thorough)
 			}
 		}()
 	}
@@ -2387,7 +2496,14 @@ func main() {
 	reportViolations(run)
 	e2eTier(run)
 
-	run.FloorCounter("sessions", int64((n+nLong+nVery)*9/10))
+	run.FloorCounter("sessions", int64((n+nLong+nVery+nWrap+nEarly)*9/10))
+	run.FloorCounter("wrap_at_start_sessions_wrap_in_between", int64(nWrap*3/4))
+	run.FloorCounter("wrap_at_start_video_wraps_between_sender_report_and_first_keyframe", int64(nWrap/2))
+	run.FloorCounter("wrap_at_start_audio_wraps_between_sender_report_and_origin_packet", int64(nWrap/2))
+	run.FloorCounter("wrap_at_start_sessions_wrap_in_between_complete_and_aligned", int64(nWrap/3))
+	run.FloorCounter("early_h264_sessions_with_wellformed_mkv", 2)
+	run.FloorCounter("early_vp9_sessions_with_wellformed_webm", 1)
+	run.FloorCounter("webm_files_checked_after_an_mkv_recording", int64(run.Pick(200, 3000)))
 	run.FloorCounter("long_hold_sessions_past_sorter_window_complete", int64(run.Pick(4, 80)))
 	run.FloorCounter("long_hold_frames_released_behind_written_audio_present", int64(run.Pick(20, 400)))
 	run.FloorCounter("blocks_verified_exact", int64(run.Pick(5000, 200000)))
@@ -2414,6 +2530,8 @@ func main() {
 	run.Assume("streams are RTP-conformant: the marker bit ends every video frame (RFC 7741/6184, VP9 payload), one Opus frame per packet, 20 ms; keyframes carry their header in the first packet; constant resolution within a session")
 	run.Assume("delivery stays inside the recorder's reorder window: displacement <= 10 packets (6 for audio) and never more than 400 ms late, withheld runs of 1..35 packets (1..4 for audio; runs may merge, always far below 256); a late start precedes the first packet by at most 20 packets (8 for audio); the server cache holds a withheld packet from the start and any other packet once it was forwarded; the buffer passed to Write is reused afterwards, as the server's writer loop does")
 	run.Assume("long-hold class: the reorder window is the recorder's, counted in packets of the track (256 for video), not in time: a video packet 30-200 video packets late is inside it however many seconds that is, so every frame from the first keyframe on is demanded; the late packets lie at least three frames behind the first keyframe (mid-stream: the file exists and the origin is fixed, so the known finding wrap-heuristic-misfire, which needs a sample released before the origin, is out of reach) and are never the first packet of a frame of several packets (arriving late behind an emptied sample builder such a packet lands in the last slot of the ring and its frame wraps around: known finding samplebuilder:ring-wrap-off-by-one, exercised by the reorder classes); they do not enter the arrival skew allowed between the two tracks' origins, which are fixed long before")
+	run.Assume("wrap-at-start sessions: each track gets exactly one sender report and both are received before the first packet of either track, so no sender report arrives once an origin is fixed: the known finding sender-report-moves-origin is out of reach there, and a symptom that depends on the sender reports cannot be filed under it; a report describes an instant 8 ms or more before the forced wrap, the video wrap lies at or before the first keyframe's capture instant, the audio wrap at or before the first audio packet or the oldest audio packet that reordering lets arrive after the first keyframe packet (whether the wrap really fell between a track's sender report and the packet that places the track in the file is measured per session from the delivery history: counters wrap_at_start_*); the known findings origin-set-by-later-keyframe and wrap-heuristic-misfire stay reachable in the reordering classes and are filed by the attribution that serves every session")
+	run.Assume("the document type of a recording depends on the process history: six H264 / VP9 sessions run alone before every other session in both tiers, every other session (and every replay, which runs the first H264 session before the recorded one) sees a process that has already written a .mkv file; the order of the remaining sessions is not controlled")
 	run.Assume("completeness is demanded from the first complete keyframe that starts at or after the first packet the recorder saw (audio next to video: from the first audio frame written), for every frame when nothing is unrecoverable, and otherwise only for the frames behind the last unrecoverable packet (they are buffered in the recorder when it is closed: flush)")
 	run.Assume("the harness does not sleep, so audio only starts after the video when both tracks carry sender reports from the start; without sender reports the recorder can only align tracks by arrival: the allowed audio/video origin error then includes the arrival skew the harness introduced (path delay, displacement, withheld runs) and the measured wall time of the session; blocks pushed after both tracks received a sender report must agree within max(one video frame interval, 40 ms)")
 	run.Assume("H264 keyframes made of STAP-A{SPS,PPS} + IDR are only generated where no packet can be missing for good (not in gap-lost, gap-mixed, late-start): once the STAP-A is lost the IDR's first packet is a partition head that no RTP-level recorder can tell from a frame start, so 'complete frames only' and 'no frame lost' cannot both be met there")
